@@ -193,7 +193,11 @@ def run_cases(ctx, res, cases, tmp, keypath, key):
                 res.violate("C05:accepted-breaks-declared-constraint:" + f["k"], "a value was accepted although it breaks a constraint the field declares",
                             dict(case, accepted=F.enc_val(r1[1])))
             known, exact = F.independent_normal(f, v)
-            if known and not tag:
+            if known and exact is F.REJECTED:
+                if r1[0] == "ok" and not tag:
+                    res.violate("C05:accepted-breaks-declared-constraint:" + f["k"], "text that is not a whole number in base ten was accepted by an integer field",
+                                dict(case, accepted=F.enc_val(r1[1])))
+            elif known and not tag:
                 # exactness both ways for whole numbers: the value the field stands for is fixed by the declaration alone, so is its verdict
                 meets = F.satisfies(dict(f, required=False), exact) is True
                 if meets and r1[0] != "ok":
@@ -275,6 +279,10 @@ def run_cases(ctx, res, cases, tmp, keypath, key):
 
 
 CORPUS = [
+    # whole numbers as text: leading zeros are fine, prefix literals and anything else that is not base ten are not
+    ({"k": "int"}, "007"), ({"k": "port"}, "0080"), ({"k": "int"}, " 0100 "), ({"k": "int", "min": 0, "max": 100}, "0x1F"), ({"k": "int"}, "0b101"), ({"k": "int"}, "0o17"),
+    ({"k": "int"}, "-0"), ({"k": "int"}, "+007"), ({"k": "int"}, "1_000"), ({"k": "int"}, "0_0"), ({"k": "port"}, "065535"), ({"k": "int"}, "1e3"), ({"k": "int"}, "0x"),
+    ({"k": "list", "item": {"k": "port"}}, ["0080", "8080"]),
     ({"k": "string", "strip": "x", "case": "lower", "min_len": 4}, "Xabc"),                       # F9
     ({"k": "string", "strip": "x", "case": "lower", "required": True}, "X"),                      # F9 (required-empty after re-strip)
     ({"k": "ipv4net", "max_prefix": 0}, "10.0.0.0/8"),                                            # F7
